@@ -40,6 +40,7 @@ EndPreds(e) ==
   \cup Iff(~e.finalstop, "C10_stop_returns")
   \cup Iff(Len(e.hangs) = 0 /\ e.finalstop /\ (e.st # "Inactive" \/ e.flag), "C10_after_stops")
   \cup Iff(Len(e.hangs) = 0 /\ e.finalstop /\ (e.census.core # 0 \/ e.census.producer # 0), "C10_workers_exit")
+  \cup Iff(Len(e.hangs) = 0 /\ e.finalstop /\ e.writing, "C10_writing_stopped")   \* every Stop call has returned and data writing is still on
   \cup Iff(e.probe # "ok" /\ e.probe # "skipped", "C10_restartable")
 
 Step ==
@@ -51,6 +52,7 @@ Step ==
             /\ Report(l, StepPreds(e), scen)
             /\ IF e.st # e.mst \/ e.flag # e.mflag THEN PrintT(<<"DRIFT", l, e.a, scen>>) ELSE TRUE
             /\ UNCHANGED scen
+       [] e.ev = "Panic" -> Report(l, {"C10_nocrash"}, scen) /\ UNCHANGED scen     \* a panic in the core loop (caught by the recover hook; it kills the server otherwise)
        [] e.ev = "Crash" -> Report(l, {"C10_nocrash"}, scen) /\ UNCHANGED scen     \* the process died in this scenario (panic in a goroutine of the code)
        [] e.ev = "Diverged" -> PrintT(<<"DIVERGED", l, e.a, scen>>) /\ UNCHANGED scen
        [] e.ev = "End" -> Report(l, EndPreds(e), scen) /\ UNCHANGED scen
